@@ -70,8 +70,11 @@ func (g *Gen) contractForCall(fx *fnExec, cc *ssa.CallCommon) (*Contract, *calle
 				return ct, info
 			}
 		}
-		info.key = keys[0]
-		return nil, info
+		info.key = keys[len(keys)-1]
+		// interface method without an assumed contract: same conservative default as external functions
+		ct := &Contract{Key: info.key, Trusted: true, Opaque: true, Allocates: true, Loops: map[int]*LoopSpec{}, HavocArgs: true}
+		g.cs.Funcs[info.key] = ct
+		return ct, info
 	}
 	var fn *ssa.Function
 	switch v := cc.Value.(type) {
@@ -161,11 +164,11 @@ func (g *Gen) contractForFn(fn *ssa.Function) (*Contract, *calleeInfo) {
 		info.key = "::" + fn.String()
 	}
 	ct := g.cs.Funcs[info.key]
-	if ct == nil && info.pkg != nil && !g.repoPkgs[info.pkg.Path()] {
-		if defaultOpaquePkgs[info.pkg.Path()] && fn.Signature.Recv() == nil {
-			ct = &Contract{Key: fn.String(), Trusted: true, Opaque: true, Loops: map[int]*LoopSpec{}}
-			g.cs.Funcs[info.key] = ct
-		}
+	if ct == nil && (info.pkg == nil || !g.repoPkgs[info.pkg.Path()]) {
+		// no assumed contract for this external function: total, results unknown, and everything
+		// reachable through its pointer / slice / interface arguments may have been modified
+		ct = &Contract{Key: fn.String(), Trusted: true, Opaque: true, Allocates: true, Loops: map[int]*LoopSpec{}, HavocArgs: true}
+		g.cs.Funcs[info.key] = ct
 	}
 	if ct != nil {
 		g.applyParamNames(ct, info)
@@ -291,6 +294,10 @@ func (fx *fnExec) applyContract(st *state, in ssa.Instruction, ct *Contract, inf
 		cm := cpre.eval(ct.Decreases.Expr)
 		m0 := fx.measure0()
 		fx.addObl("rec", anchor+":decreases", fx.safetyProps(), "(and (<= 0 "+cm.term+") (< "+cm.term+" "+m0+"))", in.Pos(), ct.Decreases.Src)
+	}
+	if ct.HavocArgs {
+		fx.havocReachableArgs(st, in, args)
+		fx.assumptionsUsed["external function without an assumed contract treated as total; results unknown; objects reachable from its arguments havocked: "+strings.TrimPrefix(info.key, "::")] = true
 	}
 	// modifies
 	for i, m := range ct.Modifies {
@@ -883,5 +890,55 @@ func (fx *fnExec) havocLockProtected(st *state, m *addr) {
 		fx.assume(fx.wellTyped(nv, stt.Field(i).Type(), st.alloc))
 		fx.heapSet(st, arr, srt, "(store "+h+" "+m.ref+" "+nv+")")
 		fx.assumptionsUsed["fields declared `locked` are havocked at every Lock() of their object (other goroutines may change them while the lock is not held); all other state is treated sequentially"] = true
+	}
+}
+
+// havocReachableArgs: conservative effect of an external call without a contract.
+func (fx *fnExec) havocReachableArgs(st *state, in ssa.Instruction, args []val) {
+	ci, _ := in.(ssa.CallInstruction)
+	var ssaArgs []ssa.Value
+	if ci != nil {
+		cc := ci.Common()
+		if cc.IsInvoke() {
+			ssaArgs = append(ssaArgs, cc.Value)
+		}
+		ssaArgs = append(ssaArgs, cc.Args...)
+	}
+	for i, a := range args {
+		if a.addr != nil {
+			for _, l := range fx.addrLocs(a.addr) {
+				fx.havocLoc(st, l, in)
+			}
+			continue
+		}
+		if a.typ == nil {
+			continue
+		}
+		switch u := a.typ.Underlying().(type) {
+		case *types.Slice:
+			arr, srt := fx.elemsArr(u.Elem())
+			fx.havocLoc(st, loc{arr: arr, sort: srt, idx: "(sl_arr " + a.term + ")"}, in)
+		case *types.Pointer:
+			for _, l := range fx.addrLocs(fx.addrOfRef(a.term, u.Elem())) {
+				fx.havocLoc(st, l, in)
+			}
+		case *types.Interface:
+			if i < len(ssaArgs) {
+				if mi, ok := ssaArgs[i].(*ssa.MakeInterface); ok {
+					if pt, isPtr := mi.X.Type().Underlying().(*types.Pointer); isPtr {
+						o := fx.operand(st, mi.X)
+						if o.addr != nil {
+							for _, l := range fx.addrLocs(o.addr) {
+								fx.havocLoc(st, l, in)
+							}
+						} else {
+							for _, l := range fx.addrLocs(fx.addrOfRef(o.term, pt.Elem())) {
+								fx.havocLoc(st, l, in)
+							}
+						}
+					}
+				}
+			}
+		}
 	}
 }
